@@ -103,10 +103,14 @@ pub fn run(params: &[i64], ops: &Rows, mon: &mut Mon) -> Rows {
                 vec![r.is_ok() as i64, r2.is_ok() as i64, r3ok as i64]
             }
             1 => {
+              let mut r = vec![];
+              // every row twice: once going through take(), once not; once through unwrap(), once through Into
+              for variant in 0..4usize {
+                let k = variant;
                 let o: Option<Tok> = if op[1] == 0 { None } else { Some(Tok::mk(op[2])) };
                 let c = COption::from(o);
                 let tag = unsafe { *(&c as *const COption<Tok> as *const u32) } as i64;
-                let mut r = match &c { COption::None => vec![0, 0], COption::Some(t) => vec![1, t.val()] };
+                r = match &c { COption::None => vec![0, 0], COption::Some(t) => vec![1, t.val()] };
                 if tag != r[0] { mon.fail(format!("case{} COption tag {} for variant {}", k, tag, r[0])); }
                 let d = take_drops();
                 if !d.is_empty() { mon.fail(format!("case{} conversion dropped a payload", k)); }
@@ -115,11 +119,12 @@ pub fn run(params: &[i64], ops: &Rows, mon: &mut Mon) -> Rows {
                     || c.as_mut().map(|t| t.val()) != (if op[1] != 0 { Some(op[2]) } else { None }) { mon.fail(format!("case{} COption accessors disagree", k)); }
                 let c = if k % 2 == 0 { let t = c.take(); if c.is_some() { mon.fail(format!("case{} take left a value", k)); } COption::from(t) } else { c };
                 if !take_drops().is_empty() { mon.fail(format!("case{} take dropped a payload", k)); }
-                let back: Option<Tok> = if k % 3 == 0 && op[1] != 0 { Some(c.unwrap()) } else { c.into() };
+                let back: Option<Tok> = if k / 2 == 0 && op[1] != 0 { Some(c.unwrap()) } else { c.into() };
                 r.extend(match &back { None => vec![0, 0], Some(t) => vec![1, t.val()] });
                 if !take_drops().is_empty() { mon.fail(format!("case{} conversion back dropped a payload", k)); }
                 drop(back);
                 if take_drops().len() != (op[1] != 0) as usize { mon.fail(format!("case{} payload not dropped exactly once", k)); }
+              }
                 r
             }
             2 => {
